@@ -13,6 +13,10 @@ Stages (see run()):
   W:outcome           the same experiments against the model's prediction (crash n ; attempt ; attempt), including the state
                       of .bfg_find_deps and .bfg_find_deps.tmp right after the fault
   oracle:script_raise a build script (or a rule emission) that raises leaves the previous build file byte-identical
+  history `options`   (edit = 'options') nothing in the tree changes: the existing build directory is configured AGAIN with other
+                      options (prefix, library mode), that run is faulted at every mutation point, and the next regeneration
+                      attempt is the backend's own command `bfg9000 regenerate --lazy` (then make); the reference is a fresh
+                      configure with the options that .bfg_environ holds after the fault
 """
 import concurrent.futures
 import json
@@ -29,11 +33,13 @@ LEVEL = 'proof'
 RULE = ('projects are drawn from the feature grid find_files yes/no x 0..2 pkg_config calls (2 immediate files each) x '
         'install/test rules x compdb on/off x edit kind (new file in a watched directory / build.bfg edited / both) x '
         'how the regeneration is started (make-triggered regenerate --lazy, bfg9000 regenerate, configure-into over the '
-        'existing build directory); for each project EVERY mutation point n of the recorded run (incl. the rename of the depfile) is '
+        'existing build directory, also with OTHER configure options and an unedited tree, followed up by regenerate --lazy run '
+        'by hand); for each project EVERY mutation point n of the recorded run (incl. the rename of the depfile) is '
         'faulted (exhaustive), in '
         'the variants kill/raise x before/after; a case = (project, n, variant, follow-up index); non-trivial when the run '
         'was really cut (fault fired) and distinct by (project features, abstract crash state, follow-up index)')
-TRUSTED = ('GNU Make 4.3 as the consumer of the Makefile (real tool, run on every crash state)',
+TRUSTED = ('the history `options`: which options a build directory holds is read off the prefix saved in .bfg_environ',
+           'GNU Make 4.3 as the consumer of the Makefile (real tool, run on every crash state)',
            'harness/inject/sitecustomize.py: the recorder / fault injector (wraps builtins.open for write modes, os.remove, '
            'os.utime, os.makedirs, os.replace, os.rename inside the bfg9000 process); a fault before a close leaves the file '
            'empty (torn writes inside one write are not modelled); a rename is one atomic mutation point',
@@ -46,6 +52,14 @@ INJECT = os.path.join(common.VERIF, 'harness', 'inject')
 WINDOW_CLASS = 'crash-between-findcache-save-and-buildfile-write'
 DEPFILE_CLASS = 'crash-while-find-depfile-truncated'
 COMPDB_CLASS = 'crash-after-buildfile-write-before-compdb-complete'
+# re-configure with other options cut after .bfg_environ holds the new options and before this run touched the find cache:
+# the lazy follow-up finds the old, trusted cache and unchanged results, touches the outputs and exits 0
+RECONF_CLASS = 'reconfigure-cut-after-environ-save-before-findcache-save'
+# regenerate --lazy run by hand over a build file that the cut run had opened (truncated) but not written: the find
+# cache is not newer than that file, results are unchanged: skip, exit 0, the build file stays empty (make fails on it)
+TRUNC_CLASS = 'lazy-by-hand-skips-over-truncated-buildfile'
+OLD_OPTIONS = ['--prefix=/opt/c10old', '--enable-shared', '--disable-static']
+NEW_OPTIONS = ['--prefix=/opt/c10new', '--disable-shared', '--enable-static']
 # the model variant [cal, adeps (F2), dnc (F1)] of State/Crash.v that mirrors the tree under test; set by select_variant()
 VARIANT = [False, False, False]
 
@@ -85,6 +99,8 @@ def v1_tree(spec):
 
 def apply_edit(spec, src):
     files = {}
+    if spec['edit'] == 'options':
+        return              # the tree stays as it is; the command line of the second configure differs
     if spec['edit'] == 'touch':
         files['src/NOTES.txt'] = 'not matched by any pattern\n'
     elif spec['edit'] in ('dir', 'both') or not spec['find']:
@@ -95,8 +111,9 @@ def apply_edit(spec, src):
 
 
 def spec_key(spec):
-    return 'find=%d pkg=%d inst=%d compdb=%d edit=%s runner=%s' % (
-        spec['find'], spec['pkg'], spec['inst'], spec['compdb'], spec['edit'], spec['runner'])
+    return 'find=%d pkg=%d inst=%d compdb=%d edit=%s runner=%s%s' % (
+        spec['find'], spec['pkg'], spec['inst'], spec['compdb'], spec['edit'], spec['runner'],
+        ' followup=' + spec['followup'] if spec.get('followup', 'make') != 'make' else '')
 
 
 def gen_specs(rng, n, fixed=()):
@@ -125,8 +142,11 @@ def verif_env(build, trace=None, fault=None, only=None, probe=None):
     return e
 
 
-def conf_args(spec):
-    return [] if spec['compdb'] else ['--disable-compdb']
+def conf_args(spec, new=False):
+    a = [] if spec['compdb'] else ['--disable-compdb']
+    if spec['edit'] == 'options':
+        a = a + (NEW_OPTIONS if new else OLD_OPTIONS)
+    return a
 
 
 def read_trace(path):
@@ -163,7 +183,7 @@ class Bench:
             rc, out = project.configure(self.src, self.build, backend=spec['backend'], extra_args=conf_args(spec))
             if rc != 0:
                 raise RuntimeError('configure of v1 failed: ' + out[-600:])
-            if spec['backend'] == 'make':
+            if spec['backend'] == 'make' and spec.get('built', True):      # built=False: configured, never built (no stamp yet)
                 rc, _, out = project.make(self.build, [], stub_tools=True)
                 if rc != 0:
                     raise RuntimeError('build of v1 failed: ' + out[-600:])
@@ -176,7 +196,7 @@ class Bench:
             # reference: fresh configure of the edited tree (not for scripts that raise: there is no uninterrupted result)
             self.ref = None
             if not spec.get('script_raise'):
-                rc, out = project.configure(self.src, self.fresh, backend=spec['backend'], extra_args=conf_args(spec))
+                rc, out = project.configure(self.src, self.fresh, backend=spec['backend'], extra_args=conf_args(spec, True))
                 if rc != 0:
                     raise RuntimeError('fresh configure of v2 failed: ' + out[-600:])
                 self.ref = self.contents(self.fresh)
@@ -245,7 +265,7 @@ class Bench:
         if r == 'regen_lazy':
             return project.run_bfg(['regenerate', '--lazy', self.build], cwd=self.build, extra_env=extra_env)
         if r == 'configure':
-            return project.configure(self.src, self.build, backend=self.spec['backend'], extra_args=conf_args(self.spec),
+            return project.configure(self.src, self.build, backend=self.spec['backend'], extra_args=conf_args(self.spec, True),
                                      extra_env=extra_env)
         raise ValueError(r)
 
@@ -259,6 +279,16 @@ class Bench:
         pr = open(probe).read().split() if os.path.exists(probe) else []
         state = self.classify()
         return rc, out, procs, ops, pr, state
+
+
+def environ_state(build):
+    """which options .bfg_environ holds: 'old' | 'new' | 'unreadable' (only meaningful for the history `options`)"""
+    try:
+        d = json.load(open(os.path.join(build, '.bfg_environ')))['data']
+        pre = d['install_dirs']['prefix'][0]
+    except Exception:
+        return 'unreadable'
+    return 'new' if pre.rstrip('/') == NEW_OPTIONS[0].split('=', 1)[1] else 'old'
 
 
 def aux_state(build):
@@ -323,6 +353,8 @@ def run_points(spec, points, followups=2):
                 r['after_fault_aux'] = aux_state(b.build)
                 bf = b.watched()[0]
                 r['build_identical'] = b.contents(b.build)[bf] == b.v1[bf]
+                r['same'] = {n: b.ref[n] == b.v1[n] for n in b.ref} if b.ref is not None else {}
+                r['env_state'] = environ_state(b.build)
                 r['attempts'] = []
                 for k in range(followups):
                     probe = os.path.join(b.root, 'probe')
@@ -330,8 +362,13 @@ def run_points(spec, points, followups=2):
                         os.remove(probe)
                     if os.path.exists(b.trace):
                         os.remove(b.trace)
-                    rc, _, out = project.make(b.build, [], stub_tools=True,
-                                              extra_env=verif_env(b.build, probe=probe, trace=b.trace))
+                    if k == 0 and spec.get('followup') == 'lazy':
+                        # the backend's own regeneration command, run by hand
+                        rc, out = project.run_bfg(['regenerate', '--lazy', b.build], cwd=b.build,
+                                                  extra_env=verif_env(b.build, probe=probe, trace=b.trace))
+                    else:
+                        rc, _, out = project.make(b.build, [], stub_tools=True,
+                                                  extra_env=verif_env(b.build, probe=probe, trace=b.trace))
                     pr = sorted(set(open(probe).read().split())) if os.path.exists(probe) else []
                     regen = [abstract_ops(spec, p['ops']) for p in read_trace(b.trace) if 'regenerate' in p['argv']]
                     r['attempts'].append({'rc': rc, 'state': b.classify(), 'out': out[-400:], 'bfg_from': pr,
@@ -388,19 +425,53 @@ def classify_failure(spec, aops, c, stale):
     return tuple(cls)
 
 
+def classify_reconfigure(spec, aops, c, k, state, stale):
+    """Finding classes of the history `options` (input predicate: project features, crash state, which follow-up; failure
+    signature: which files are stale and how)."""
+    cls = []
+    ec, co = idx(aops, 'close', 'env'), idx(aops, 'open', 'cache')
+    bo, bc = idx(aops, 'open', 'build'), idx(aops, 'close', 'build')
+    bf = 'Makefile' if spec['backend'] == 'make' else 'build.ninja'
+    # the new options are saved, this run has not touched the find cache yet
+    if co is None:
+        # the uninterrupted run never wrote the cache file: the window then ends before the find hook's last depfile
+        # mutation (once the depfile is complete the cache save - no mutation here - is over as well, and from there on a
+        # correct implementation has left its marker)
+        dl = [i for i, o in enumerate(aops) if o[0] in ('open', 'close', 'rename') and o[-1] in ('deps', 'depstmp')]
+        co = dl[-1] if dl else None
+    if spec['find'] and ec is not None and co is not None and ec < c <= co and state.get(bf) == 'old':
+        cls.append(RECONF_CLASS)
+    if spec['find'] and spec.get('followup') == 'lazy' and k == 0 and bo is not None and bc is not None and bo < c <= bc \
+            and state.get(bf) == 'empty' and set(stale) <= {bf, 'compile_commands.json'}:
+        cls.append(TRUNC_CLASS)
+    if bc is not None and c > bc and set(stale) == {'compile_commands.json'}:
+        cls.append(COMPDB_CLASS)
+    return tuple(cls)
+
+
 def judge(rep, r, aops):
     """Apply the property to one experiment.  Returns number of (unknown) violations."""
     spec = r['spec']
     c = crash_state(r['n'], r['kind'])
     bad = 0
+    # the history `options`: the next regeneration uses the options that .bfg_environ holds; when the cut came before the new
+    # options were saved that is the old configuration, and the files of the old configure are the uninterrupted result
+    expect = 'new'
+    if spec['edit'] == 'options' and r.get('env_state') == 'old':
+        expect = 'old'
     for k, a in enumerate(r['attempts']):
-        stale = sorted(f for f, s in a['state'].items() if s != 'new')
+        stale = sorted(f for f, s in a['state'].items() if s != expect and not (expect == 'old' and r.get('same', {}).get(f)))
+        if spec['edit'] == 'options' and not a['regen_ops']:
+            continue        # nothing in the tree changed: a make that does not start bfg9000 is no regeneration attempt
         if a['rc'] == 0 and stale:
-            cls = classify_failure(spec, aops, c, stale)
-            what = ('%s; regeneration cut after %d of %d mutations (%s at mutation %d = %s); follow-up make #%d exits 0 while %s'
+            cls = classify_reconfigure(spec, aops, c, k, a['state'], stale) if spec['edit'] == 'options' else \
+                classify_failure(spec, aops, c, stale)
+            what = ('%s; regeneration cut after %d of %d mutations (%s at mutation %d = %s); follow-up #%d (%s) exits 0 while %s%s'
                     % (spec_key(spec), c, len(aops), r['kind'], r['n'],
                        ' '.join(map(str, aops[r['n']])) if r['n'] < len(aops) else '-',
-                       k + 1, ', '.join('%s is %s' % (f, a['state'][f]) for f in stale)))
+                       k + 1, 'regenerate --lazy' if k == 0 and spec.get('followup') == 'lazy' else 'make',
+                       ', '.join('%s is %s' % (f, a['state'][f]) for f in stale),
+                       ' (.bfg_environ holds the %s options)' % r.get('env_state') if spec['edit'] == 'options' else ''))
             rep.count('silently-stale:' + (cls[0] if cls else 'UNCLASSIFIED'))
             if rep.fail(what, {'spec': spec, 'n': r['n'], 'kind': r['kind'], 'crash_state': c, 'attempt': k + 1,
                                'ops': [list(o) for o in aops], 'stale': {f: a['state'][f] for f in stale},
@@ -476,6 +547,40 @@ def model_outcomes(spec, same, names, cs, k=2):
         atts = [(bool(a[0]), bool(a[1]), canon_state(spec, same, names, (a[2], a[3], a[4]))) for a in r[1]]
         out.append((st0, atts, bool(r[2]), aux))
     return calls, raw, out
+
+
+def reconf_tie(spec, rs, tr):
+    """W:outcome for the history `options` (State/Crash.v reconf_followup): for every experiment the state right after the
+    cut (incl. which options .bfg_environ holds), the by-hand lazy follow-up (exit status, states) and, from the point at
+    which the new options are saved, the verdict (reconf_ok) and the classification (reconf_bad = the two open findings)."""
+    dis = []
+    shift = 1 if spec['runner'] == 'configure' else 0
+    cs = [max(0, crash_state(r['n'], r['kind']) - shift) for r in rs]
+    calls = [('crash.reconf', [list(VARIANT), m_proj(spec), c]) for c in cs]
+    raw = common.model_batch(calls)
+    envn = {0: 'unreadable', 1: 'unreadable', 2: 'old', 3: 'new'}
+    for r, c, m in zip(rs, cs, raw):
+        st0 = canon_state(spec, tr['same'], tr['names'], (m[0][0], m[0][1], m[0][2]))
+        real0 = (r['after_fault'], r['env_state'])
+        if real0 != (st0, envn[m[0][3]]):
+            dis.append(('crash.reconf/after-fault', spec, (r['n'], r['kind']), real0, (st0, envn[m[0][3]])))
+        a = r['attempts'][0]
+        mod = (bool(m[1][0]), canon_state(spec, tr['same'], tr['names'], (m[1][1], m[1][2], m[1][3])))
+        if c == 0:
+            # .bfg_environ still holds the OLD options: whatever the follow-up writes is written with them (the model's
+            # generation New means `written with the new options`, so only the exit status and the real files - all as the
+            # old configure left them - are compared)
+            if a['rc'] != 0 or not mod[0] or any(v != 'old' and not tr['same'].get(f) for f, v in a['state'].items()):
+                dis.append(('crash.reconf/followup-old-options', spec, (r['n'], r['kind']), (a['rc'] == 0, a['state']), mod[0]))
+        elif (a['rc'] == 0, a['state']) != mod:
+            dis.append(('crash.reconf/followup', spec, (r['n'], r['kind']), (a['rc'] == 0, a['state']), mod))
+        if c >= 2:
+            real_ok = a['rc'] != 0 or all(v == 'new' for f, v in a['state'].items() if f != 'compile_commands.json')
+            if real_ok != bool(m[2]):
+                dis.append(('crash.reconf/reconf_ok', spec, (r['n'], r['kind']), real_ok, bool(m[2])))
+            if spec['find'] and VARIANT[2] and not VARIANT[0] and bool(m[2]) == bool(m[3]):
+                dis.append(('crash.reconf/classified', spec, (r['n'], r['kind']), bool(m[2]), bool(m[3])))
+    return dis, calls, raw
 
 
 # ----------------------------------------------------------------------------- stages
@@ -569,6 +674,12 @@ def stage_crash(rep, specs, traces, kinds, followups=2):
                          found_input=False)
             bad += judge(rep, r, aops)
         # model side (not for lazy-skip runs: their mutation list is skip_ops, crash states of run_ops do not apply)
+        if spec['edit'] == 'options':
+            if spec.get('followup') == 'lazy':
+                d, calls, raw = reconf_tie(spec, rs, tr)
+                dis += d
+                calls_all += calls; raw_all += raw
+            continue
         if m_kind(spec) == 2:
             continue
         shift = 1 if spec['runner'] == 'configure' else 0
@@ -658,6 +769,18 @@ QUICK_FIXED = (
     {'find': True, 'pkg': 1, 'inst': True, 'compdb': True, 'edit': 'dir', 'runner': 'make', 'backend': 'make'},
     # build.bfg edited, plain regenerate, no stamp indirection
     {'find': True, 'pkg': 0, 'inst': False, 'compdb': True, 'edit': 'script', 'runner': 'regen', 'backend': 'make'},
+)
+# the existing build directory is configured again with other options (tree unedited); every mutation point faulted; the
+# next regeneration attempt is `bfg9000 regenerate --lazy` by hand, then make
+RECONFIGURE = (
+    {'find': True, 'pkg': 1, 'inst': True, 'compdb': True, 'edit': 'options', 'runner': 'configure', 'backend': 'make',
+     'followup': 'lazy'},
+    {'find': True, 'pkg': 0, 'inst': True, 'compdb': False, 'edit': 'options', 'runner': 'configure', 'backend': 'make',
+     'followup': 'lazy'},
+    {'find': False, 'pkg': 2, 'inst': True, 'compdb': True, 'edit': 'options', 'runner': 'configure', 'backend': 'make',
+     'followup': 'lazy'},
+    {'find': True, 'pkg': 2, 'inst': False, 'compdb': True, 'edit': 'options', 'runner': 'configure', 'backend': 'make',
+     'followup': 'make', 'built': False},
 )
 TRACE_ONLY = (
     {'find': False, 'pkg': 0, 'inst': True, 'compdb': False, 'edit': 'script', 'runner': 'make', 'backend': 'make'},
@@ -764,6 +887,7 @@ def run(rep):
     fault_specs = gen_specs(rng, 16 if thorough else 3, fixed=QUICK_FIXED)
     have = [spec_key(x) for x in fault_specs]
     fault_specs += [c for c in load_corpus() if spec_key(c) not in have]      # past witnesses: listed points only
+    fault_specs += [dict(s) for s in (RECONFIGURE if thorough else RECONFIGURE[:1])]
     if thorough:
         fault_specs.append(dict(TRACE_ONLY[2]))          # lazy skip run, faulted too
         fault_specs.append(dict(TRACE_ONLY[0]))          # no find_files at all
